@@ -219,8 +219,10 @@ func ctOnEvent(pc *PodCache, old, pod *v1.Pod, ev model.Event) {
 	verif.Requires("a-pod-event", ev == model.EventAdd || ev == model.EventUpdate || ev == model.EventDelete)
 	key := config.NamespacedName(pod)
 	belongs := shouldPodBeInEndpoints(pod) && IsPodReady(pod)
+	_, wasIn := pc.ipByPods[key]
 	_ = pc.onEvent(old, pod, ev)
 	cur, in := pc.ipByPods[key]
+	verif.Ensures("no-event-indexes-a-pod-that-does-not-belong", belongs || !in || wasIn)
 	verif.Ensures("ready-pod-with-an-ip-is-indexed-under-it", !(ev != model.EventDelete && belongs && pod.Status.PodIP != "") || (in && cur == pod.Status.PodIP))
 	verif.Ensures("deleted-pod-is-forgotten", ev != model.EventDelete || !in)
 	verif.Ensures("pod-that-stopped-belonging-is-forgotten", !(ev == model.EventUpdate && !belongs) || !in)
